@@ -1,7 +1,7 @@
 """C07 - every solver returns the solution of the model's ODE at the requested times."""
 from .common import *  # noqa
 
-KEYS = {"outputs", "ntimes"}
+KEYS = {"outputs", "ntimes", "y1", "f1", "err"}
 
 
 def run(tier, seed):
@@ -20,6 +20,9 @@ def run(tier, seed):
             obs.append({"obs": "run", "solver": "euler", "params": pv})
         if (not p["nonlinear"]) or nsteps(p) <= 1:
             obs.append({"obs": "run", "solver": "rk4", "params": pv})
+        # one Dormand-Prince step of the adaptive solver from the initial population (Model/Adaptive.v rk_step)
+        if (not p["nonlinear"]) or g.rng.random() < 0.5:
+            obs.append({"obs": "rkstep", "params": pv, "t": p["times"][0], "dt": g.rng.choice(["1/4", "1/8", "1/2", "1/16"]), "x": None})
         obs.append({"obs": "oracle", "name": "c07", "params": pv})
         p["obs"] = obs
         progs.append(p)
@@ -39,7 +42,8 @@ def run(tier, seed):
     return {"programs": progs, "explore": ex, "distinct_nontrivial": len(nontrivial),
             "rule": "build programs with timesteps {1, 1/2, 1/4, 3/8, 2, 3/2} and start times {0, 1, -2, 5/2, 10}: euler and rk4 "
                     "trajectories (linear models up to 8 steps, nonlinear 1-2 steps) compared with the exact-rational model whose "
-                    "step bodies are translated from solvers.py; on the implementation the recurrences are re-derived from "
+                    "step bodies are translated from solvers.py; one Dormand-Prince step (new state, new derivative, error "
+                    "estimate) of ode.runge_kutta_step compared with Model/Adaptive.v over the translated tableau; on the implementation the recurrences are re-derived from "
                     "get_comp_rates, and decay / logistic closed forms give Euler, RK4 polynomial values, adaptive-solver "
                     "errors at two tolerances and two output grids, and the observed orders of convergence; non-trivial = the "
                     "trajectory moves",
